@@ -17,3 +17,13 @@ class Prop(RefProp):
             'error outcome; distinct by case hash. Monitor: clean-room reference interpreter (harness/'
             'refinterp.py) on the single-pipeline fragment: executed steps and outcome')
     trusted_base = EngineProp.engine_trusted
+
+    def generate(self, rng, n, tier):
+        import gen_pipes
+        cases = []
+        for _ in range(n):
+            case = gen_pipes.gen_case(rng, self.profile)
+            if rng.random() < 0.06:
+                gen_pipes.main_parser_failure(rng, case)
+            cases.append(case)
+        return cases
